@@ -250,7 +250,13 @@ func runProbe(w coraza.WAF, i int, beforeClose ...func()) string {
 		o.Interruption = probe.Itr(tx.Interruption())
 		o.Matched = probe.Matches(tx)
 		o.Vars = probe.Vars(tx, nil)
-		fmt.Fprintf(&sb, "reqbody=%s respbody=%s\n", probe.ReadAll(tx.RequestBodyReader()), probe.ReadAll(tx.ResponseBodyReader()))
+		// the probe takes its own body reader and, before reading it, the hooks run (a reader of the closed predecessor
+		// must stay silent also when the recycled buffer has just handed out a reader again)
+		rr, rerr := tx.RequestBodyReader()
+		for _, f := range beforeClose {
+			f()
+		}
+		fmt.Fprintf(&sb, "reqbody=%s respbody=%s\n", probe.ReadAll(rr, rerr), probe.ReadAll(tx.ResponseBodyReader()))
 		fmt.Fprintf(&sb, "flags: off=%v reqacc=%v respacc=%v processable=%v\n", tx.IsRuleEngineOff(), tx.IsRequestBodyAccessible(), tx.IsResponseBodyAccessible(), tx.IsResponseBodyProcessable())
 	})
 	for _, f := range beforeClose {
